@@ -10,7 +10,8 @@ from ..core.origins import Origins
 CONFIGS = {'quick': ['A'], 'thorough': ['A', 'C', 'D']}     # configuration B has no private_message feature
 LEVEL = 'other'
 TECHNIQUE = ('who-may-call and who-may-access queries on AEAD calls and key stores, def-use wiring of key / nonce / reuse-guard '
-             'arguments, take/put pairing on all exits, variant-arm wiring of the handshake / application ratchets, guard extraction')
+             'arguments, take/put pairing on all exits, variant-arm wiring of the handshake / application ratchets, guard extraction, '
+             'ownership trace of the state handed to the cipher (no temporary copy), reachability of the lookup tiers')
 EXPLANATION = ('WHO-CALLS: aead_seal / aead_open are called only by MessageKey, SenderDataKey and WelcomeSecret; a MessageKey is built '
                'only in CiphertextProcessor::seal / open from the key the ratchet just handed out. WIRE: key and nonce of one AEAD '
                'call come from the same MessageKeyData, the nonce passes through the reuse guard, the reuse guard is fresh '
@@ -20,6 +21,9 @@ EXPLANATION = ('WHO-CALLS: aead_seal / aead_open are called only by MessageKey, 
                'INSTALL/ORDER: every successful ratchet step replaces the secret and increments the generation after deriving key and '
                'nonce. PAIR: a leaf ratchet taken from the tree is put back on every exit. ARM-WIRING: handshake and application key '
                'types select distinct ratchets on both the send and the receive side. GUARD: the out-of-order window. '
+               'IN-PLACE: the ciphertext processor is handed a &mut into the stored epoch state (the group, or the record held by the repository), '
+               'never a temporary copy, so a consumed key stays consumed. TIERED-LOOKUP: a late message is served the prior epoch it names from '
+               'whichever tier holds it (plain guarded offset into the unwritten epochs, linear equality search of the cached ones, storage). '
                'Uniqueness of derived bytes and behaviour under delivery permutations are not decided.')
 ASSUMPTIONS = ['KDF outputs for distinct (secret, label, generation) are distinct (cryptographic assumption)']
 
